@@ -373,3 +373,55 @@ example : interleaveEnds [4, 1, 3, 2] = [4, 2, 1, 3] := by simp [interleaveEnds]
 
 end C09
 end Pymoode
+
+namespace Pymoode
+namespace C09
+
+/-- `current-to-rand`: `[i, r, i]` then distinct drawn parents; `r` and the later ones differ from
+the target and from each other -/
+theorem current_to_rand_spec (rank : Nat → Nat) (n nPar : Nat) (evs rows' rest)
+    (h : select .currentToRand rank n nPar evs = some (rows', rest)) (i : Nat) (hi : i < n)
+    (hi' : i < rows'.length) :
+    ∃ r new, rows'[i] = i :: r :: i :: new ∧ r ≠ i ∧ new.length = nPar - 3 ∧ new.Nodup ∧
+      i ∉ new ∧ r ∉ new := by
+  simp only [select] at h
+  split at h
+  · simp at h
+  · rename_i rows1 rest1 h1
+    obtain ⟨hl1, hs1⟩ := fillCols_spec 1 _ evs rows1 rest1 h1
+    have hl1' : rows1.length = n := by simpa using hl1
+    obtain ⟨hl2, hs2⟩ := fillCols_spec (nPar - 3) _ rest1 rows' rest h
+    have hz : (List.zipWith (fun r i => r ++ [i]) rows1 (List.range n)).length = n := by simp [hl1']
+    obtain ⟨new1, e1, e2, _, e4, _⟩ := hs1 i (by simpa using hi) (by omega)
+    obtain ⟨new, f1, f2, f3, f4, _⟩ := hs2 i (by omega) hi'
+    simp only [List.getElem_map, List.getElem_range, List.singleton_append] at e1
+    -- new1 is a single parent r
+    cases new1 with
+    | nil => simp at e2
+    | cons r t =>
+      have ht : t = [] := by
+        cases t with
+        | nil => rfl
+        | cons _ _ => simp at e2
+      subst ht
+      have hr : r ≠ i := (e4 r (by simp)).1
+      have hrow : (List.zipWith (fun r i => r ++ [i]) rows1 (List.range n))[i]'(by omega) = [i, r, i] := by
+        simp [e1]
+      rw [hrow] at f1 f4
+      refine ⟨r, new, by simpa using f1, hr, f2, f3, fun hc => (f4 i hc).1 rfl, fun hc => ?_⟩
+      have := (f4 r hc).2
+      simp at this
+
+/-- every parent index of every variant is a valid population index, provided the draws are -/
+theorem select_rand_valid (rank : Nat → Nat) (n nPar : Nat) (evs rows' rest)
+    (h : select .rand rank n nPar evs = some (rows', rest)) (hv : ∀ e ∈ evs, ∀ x ∈ e, x < n)
+    (i : Nat) (hi : i < n) (hi' : i < rows'.length) : ∀ x ∈ rows'[i], x < n := by
+  simp only [select] at h
+  intro x hx
+  have := fillCols_valid nPar _ evs rows' rest n h hv i (by simpa using hi) hi' x hx
+  rcases this with h1 | h1
+  · simp at h1
+  · exact h1
+
+end C09
+end Pymoode
